@@ -6,7 +6,7 @@ for d in seeded/*; do
   pid=$(basename $d | cut -d- -f1)
   if [ $# -gt 0 ] && [[ ! " $* " =~ " $pid " ]]; then continue; fi
   [ -f rules/$pid.py ] || { echo "$(basename $d): no check"; continue; }
-  git -C /repo apply $d/patch.diff || { echo "$(basename $d): patch failed"; continue; }
+  git -C /repo apply /verif/$d/patch.diff || { echo "$(basename $d): patch failed"; continue; }
   out=$(./check $pid 2>&1); code=$?
   git -C /repo checkout -- .
   rules=$(echo "$out" | grep -E "^VIOLATED" | awk '{print $2}' | sort -u | tr '\n' ' ')
